@@ -409,4 +409,40 @@ example : matchOrder ⟨true, true, false, 1/4, .priceRatio (1/100)⟩ ⟨false,
     (fun _ _ => 5) (fun _ => 0) = .fill 300 10.605 0 false := by
   decide +kernel
 
+
+/-! ### signal mode (`SignalBroker`) -/
+
+/-- signal mode: a fill is for the WHOLE quantity, never cancels a remainder, and its price is the order's own limit price (limit
+order) or the last price (market order) moved by the configured slippage model -/
+theorem signal_fill_price (pl : Bool) (slip : Slip) (o : Ord) (b : MBar) (ct : Int → Int) (q : Int) (p : R) (c : Int) (cr : Bool)
+    (h : signalMatch pl slip o b ct = .fill q p c cr) :
+    q = o.qty ∧ cr = false ∧ ∃ last, validPrice b.deal = some last ∧
+      slipPrice slip o.isBuy o.isLimit o.limitPrice b (if o.isLimit then o.frozenPrice else last) = some p := by
+  unfold signalMatch at h
+  cases hv : validPrice b.deal with
+  | none => rw [hv] at h; simp at h
+  | some last =>
+    rw [hv] at h
+    simp only at h
+    cases hc : (pl && signalAtLimit o b (signalDeal o last)) with
+    | true => rw [hc] at h; simp at h
+    | false =>
+      rw [hc] at h
+      simp only [Bool.false_eq_true, if_false] at h
+      cases hs : slipPrice slip o.isBuy o.isLimit o.limitPrice b (signalDeal o last) with
+      | none => rw [hs] at h; simp at h
+      | some price =>
+        rw [hs] at h
+        simp only [MOutcome.fill.injEq] at h
+        obtain ⟨h1, h2, _, h4⟩ := h
+        refine ⟨h1.symm, h4.symm, last, rfl, ?_⟩
+        have : (if o.isLimit then o.frozenPrice else last) = signalDeal o last := rfl
+        rw [this, hs, h2]
+
+/-- signal mode: nothing is filled without a valid last price -/
+theorem signal_no_price_no_fill (pl : Bool) (slip : Slip) (o : Ord) (b : MBar) (ct : Int → Int) (h : validPrice b.deal = none) :
+    signalMatch pl slip o b ct = .rejected := by
+  unfold signalMatch
+  rw [h]
+
 end RQ.Props.C05
